@@ -70,13 +70,17 @@ pub fn check_history(plan: &Plan, r: &RunResult) -> Vec<Violation> {
             | Ev::Wake { task }
             | Ev::Cancel { task }
             | Ev::CancelDone { task }
-            | Ev::Panicked { task }
+            | Ev::Panicked { task, .. }
+            | Ev::Mark { task, .. }
             | Ev::SyncStart { task }
             | Ev::Abandoned { task }
             | Ev::SyncEnd { task, .. } => *task as usize,
         };
         if task >= n {
             continue;
+        }
+        if let Ev::Mark { .. } = ev {
+            continue; // judged against the direct-call twin only
         }
         let app = plan.tasks[task].app;
         let ai = app_index(app);
@@ -425,7 +429,8 @@ pub fn compare_twin(a: &RunResult, b: &RunResult, compare_allocs: &[bool], compa
                 )),
                 Ev::Exit { task, fn_id, result } => Some(format!("t{task} exit f{fn_id} -> {result}")),
                 Ev::CallEnd { task, method, ret } => Some(format!("t{task} callend m{method} -> {ret}")),
-                Ev::Panicked { task } => Some(format!("t{task} panicked")),
+                Ev::Panicked { task, .. } => Some(format!("t{task} panicked")),
+                Ev::Mark { task, fn_id, addr } => Some(format!("t{task} f{fn_id} ran with its function-local state at {addr:#x}")),
                 _ => None,
             })
             .collect()
@@ -461,6 +466,22 @@ pub fn compare_twin(a: &RunResult, b: &RunResult, compare_allocs: &[bool], compa
             })
             .collect()
     };
+    let unwinds = |r: &RunResult| -> Vec<(u8, u32)> {
+        r.events
+            .iter()
+            .filter_map(|e| match e {
+                Ev::Panicked { task, allocs } => Some((*task, *allocs)),
+                _ => None,
+            })
+            .collect()
+    };
+    for ((ta, xa), (_, xb)) in unwinds(a).into_iter().zip(unwinds(b)) {
+        if compare_allocs.get(ta as usize).copied().unwrap_or(false) && xa != xb {
+            return Twin::Differs(format!(
+                "task {ta}: a window that ended in an unwind performed {xa} heap allocations through the generated trait, {xb} when calling the function directly"
+            ));
+        }
+    }
     for ((ta, xa), (_, xb)) in allocs(a).into_iter().zip(allocs(b)) {
         if compare_allocs.get(ta as usize).copied().unwrap_or(false) && xa != xb {
             return Twin::Differs(format!(
